@@ -26,7 +26,7 @@ CHECKS = {
                 note=TRUST + 'floating "few ulp" distance to the exact rational is not decided; mixed-width % is a structural obligation (the remainder operator uninterpreted on both sides).', ref='5 (C08), 10.1', tech=H + '; structural obligations for mixed-width %'),
     'C09': dict(text='Point conversions equal the exact affine map (independent rational table) for bounded inputs; point-point, point+-quantity, comparisons by '
                      'absolute position; the unbounded letter of the property at the F->mK int32 call site (known finding KF-C09-1).',
-                note=TRUST + 'inputs bounded per obligation (stated); compile-time rejections N/A; floating reps not covered.', ref='5 (C09)', tech=H),
+                note=TRUST + 'inputs bounded per obligation (stated); compile-time rejections (point + point, scalar x point, point vs quantity) are negative compile probes (not counted); floating reps only on an exactly representable family (bounded) and for NaN comparisons.', ref='5 (C09)', tech=H),
     'C10': dict(text='Relational contract: r_i(x) == c_i + m_i*x for all x in range, m_i >= 1, c_i >= 0, cross-consistency of (m_i, c_i) with the independent unit '
                      'sizes and origins, lowest origin maps to 0 (unit lists of 2-4 units incl. origins of different granularity).', note=TRUST + 'type identity under permutation / repetition is not expressible as a contract: checked per unit set by supporting static probes (not counted).', ref='5 (C10), 10.5', tech=H + '; static_assert probes for the type-level clause'),
     'C13': dict(text='Same-unit + - % unary += -= *= /= scalar * / and comparisons equal the raw operator on the promoted operands for all values where the raw '
@@ -53,12 +53,12 @@ CHECKS = {
                 tech='CBMC function + loop contracts (goto-instrument --dfcc, and ll2c-generated VCs); nonlinear arithmetic as uninterpreted functions + instances of Lean-checked lemmas'),
     'C14': dict(text='Quantity * Quantity, / (unblock_int_div), int_pow<2>, int_pow<3>, same-unit quotient collapsing to a raw number equal the raw operator on the stored values '
                      'whenever the raw expression is defined (overflow predicates of the abstract machine), for all values; sqrt: std::sqrt called once on the stored value (trusted stub).',
-                note=TRUST + 'Floating *, /, 1/q are structural obligations over all bit patterns (operator uninterpreted on both sides). Result units, collapse to a raw number and as_raw_number overload resolution are supporting static probes (not counted); rejections themselves are not decided. Open known finding KF-C14-1.',
+                note=TRUST + 'Floating *, /, 1/q are structural obligations over all bit patterns (operator uninterpreted on both sides). Result units, collapse to a raw number and as_raw_number overload resolution are supporting static probes (not counted); the rejections (integer-division guard, as_raw_number of a dimensioned quantity) are negative compile probes: the program must be rejected by the library\'s own guard. Open known finding KF-C14-1.',
                 ref='5 (C14), 10.1', tech=H + '; structural obligations for the floating operators; static_assert probes for result types'),
     'C15': dict(text='floor_/ceil_/round_in and _as: integral result bracketing the library\'s own conversion of q (scaling step under its purity contract), all finite values below 2^51 / 2^22; '
                      'inverse_in/as == trunc(10^6/x) for all x != 0 and inverse(inverse(n)) == n for 1..1000; sin/cos/tan/arcsin wrappers call the std function exactly once on the value '
                      'in radians (trusted stubs); min/max/clamp/abs in the common unit.',
-                note=TRUST + 'libm functions are assumed (abs on floating reps is compared with std::abs bit for bit); compile-time refusal of small-K inversions not claimed; the float->int inverse is a structural obligation over all bit patterns plus a bounded family.',
+                note=TRUST + 'libm functions are assumed (abs on floating reps is compared with std::abs bit for bit); compile-time refusal of small-K inversions is a negative compile probe; the float->int inverse is a structural obligation over all bit patterns plus a bounded family.',
                 ref='5 (C15)', tech=H + '; callee purity contracts; libm as trusted stubs'),
     'C16': dict(text='Multiplying/dividing numbers and quantities by a constant keeps the stored number bit for bit for every value; C.as<T>/in<T>/implicit conversion return the independently '
                      'computed exact value; can_store_value_in on boundary instances.', note=TRUST + '"available exactly when representable" only on its positive instances and listed boundaries (max, max+1, primes above max, subnormal and out-of-range ratios for floating T); result units are supporting static probes.',
@@ -68,7 +68,7 @@ CHECKS = {
                 note=TRUST + "libstdc++'s <chrono> is lowered by the same pipeline (also for operands of different reps). Acceptance 'exactly when the quantity would be', cv / value category of the duration: supporting static probes (not counted).", ref='5 (C17)', tech=H + '; static_assert probes for acceptance'),
     'C18': dict(text='string_size_unsigned: loop contract (invariant x*10^(d-1) <= x0 < (x+1)*10^(d-1), decreases x) proving 10^(r-1) <= x < 10^r for all 2^64 inputs (step split into the 20 '
                      'digit-count cases); string_size against that contract; StringConstant::join on run-time characters (in-bounds, joined text, NUL, size); label constants of grid units.',
-                note=TRUST + 'operator<< is decided up to the std::ostream inserters (trusted recorder stubs: which overload, which value); label text for the listed units and grammar probes. Open known finding KF-C18-1.', ref='5 (C18)',
+                note=TRUST + 'operator<< is decided up to the std::ostream inserters (trusted recorder stubs: which overload, which value); label text for the listed units and grammar probes. Open known findings KF-C18-1, KF-C18-2.', ref='5 (C18)',
                 tech='loop-contract VCs generated by ll2c (base/step/variant) decided by cvc5 int-blast / z3 / SAT; constant-trip-count loops fully unwound with unwinding assertions'),
     'C19': dict(text='For every value (all bit patterns for floating reps): comparisons with ZERO equal comparisons with 0 in both orders, q+-ZERO == q, '
                      'Quantity(ZERO) holds 0, T(ZERO) == 0, duration(ZERO).count() == 0.', note=TRUST + 'conversions to every arithmetic type and to chrono durations (class-type reps included) and the point rejection are supporting static probes.', ref='5 (C19)', tech=H + '; static_assert probes'),
